@@ -141,6 +141,10 @@ def build_expr(t, ctr):
     sc, n, kind = vec_info(t[1])
     args = ", ".join(nxt() for _ in range(n))
     if kind == "vec":
+        if t[1] == "Vec3A":
+            # the padding lane of a Vec3A source carries junk that differs from z (a conversion that reads the whole
+            # register must not let it through)
+            return "vec3a_junk(%s)" % args
         return "%s::new(%s)" % (t[1], args)
     if kind == "quat":
         return "%s::from_xyzw(%s)" % (t[1], args)
